@@ -185,7 +185,12 @@ func VH_C12_concurrent_sinks() {
 }
 
 //verif:check C15,C09 sched=coop+2 maxsteps=400000 onunwind=violation stubs=env,valuefile,abslog,snapfs onblock=violation reach=opened,end desc="a replication (or the FSM loop) opening the latest snapshot while another snapshot completes and retention (keep 1) removes older ones, with every file-system call a scheduling point and every schedule within two deviations from round robin: opening never fails (no storage fault is injected: a failure here makes the replication panic and the leader shut itself down), and the snapshot it hands out keeps its files until it is released" bounds="store holding snapshot 5, retain 1; one snapshots.open racing one snapshotSink.done for index 9"
-func VH_C15_snapshot_open_vs_retention() {
+func VH_C15_snapshot_open_vs_retention() { vSnapshotOpenVsRetention() }
+
+//verif:check C15,C09 tier=thorough sched=coop+4 maxsteps=400000 onunwind=violation stubs=env,valuefile,abslog,snapfs onblock=violation reach=opened,end desc="as VH_C15_snapshot_open_vs_retention, every schedule within four deviations from round robin" bounds="store holding snapshot 5, retain 1; one snapshots.open racing one snapshotSink.done for index 9"
+func VH_C15_snapshot_open_vs_retention_sched4() { vSnapshotOpenVsRetention() }
+
+func vSnapshotOpenVsRetention() {
 	r := vMkRaft(1)
 	snaps := &snapshots{dir: vDir + "/snapshots", retain: 1, used: map[uint64]int{}}
 	cfg := vStableConfig("cfg", 2, 1, 1)
